@@ -76,7 +76,11 @@ hi_shl  == WrapW(ans23 * (W \div P2F))                 \* self << (128 - shift),
 ans     == lo_shr + hi_shl                              \* lo | hi: the bit ranges do not overlap
 ovf     == IF SIGNED THEN (ans23 \div P2F) # (IF ans < 0 THEN -1 ELSE 0)
            ELSE (ans23 \div P2F) # 0
-Rfull   == Exact \div P2F                              \* the exact result (floor)
+\* the exact product written with the partial products (linear for the SMT solver; Recombine proves
+\* ans23 * W + ans01 = Exact, and Exact = ExactP by distributivity)
+ExactP  == p11 * W + (p10 + p01) * H + p00
+Rfull   == ExactP \div P2F                             \* the exact result (floor)
+Distrib == ExactP = Exact
 Combine ==
   /\ ans = WrapW(Rfull)
   /\ ovf = (IF SIGNED THEN Rfull < -WH \/ Rfull >= WH ELSE Rfull >= W)
